@@ -191,8 +191,9 @@ def cacg_instance(D, N, lead=()):
                 n2 = sp.sum(sp.abs2(v) for v in yv)
                 zz = [z[li + (d, n)] for d in range(D)]
                 # unit norm and direction: z * |y| = y  <=>  z parallel to y with |z| = 1
-                yield 'normalised[%s,%d]' % (li, n), sp.and_(sp.eq(sp.sum(sp.abs2(v) for v in zz), 1.0),
-                                                            *[sp.eq(zz[d] * sp.sqrt(n2), yv[d]) for d in range(D)])
+                yield 'normalised-unit-norm[%s,%d]' % (li, n), sp.eq(sp.sum(sp.abs2(v) for v in zz), 1.0)
+                for d in range(D):
+                    yield 'normalised-direction[%s,%d,%d]' % (li, n, d), sp.eq(zz[d] * sp.sqrt(n2), yv[d])
                 # z^H V diag(1/lam) V^H z = sum_e |V_e^H z|^2 / lam_e   (>= 0)
                 zf_ = [zf[li + (d, n)] for d in range(D)]
                 q = sp.sum(sp.abs2(sp.sum(sp.conj(V[li + (d, e)]) * zf_[d] for d in range(D))) / lam[li + (e,)] for e in range(D))
